@@ -13,6 +13,12 @@ open WS.Model.NoProxy
     (false of a tree that still has `< 32`, which does not recognise `a/32`). -/
 theorem mask_bound : Gen.subnetMaskStrict = false ∧ Gen.subnetMaskBound = 32 := by decide
 
+/-- generated facts (T): the domain test is on a label boundary; `proxy_info` reads
+    `http_no_proxy` unconditionally; an absent password becomes "" before `unquote`
+    (each false of a tree without the corresponding repair). -/
+theorem proxy_shape : Gen.noProxyLabelBoundary = true ∧ Gen.proxyInfoNoProxyAlways = true ∧
+    Gen.envProxyPasswordOrEmpty = true := by decide
+
 theorem inetAton_lt {s : Str} {n : Nat} (h : inetAton s = some n) : n < 2 ^ 32 := by
   unfold inetAton at h
   split at h
@@ -87,6 +93,7 @@ theorem C19_domain (host d : Str) :
 theorem C19_exempt (host : Str) (list : List Str) :
     isNoProxyHostL host list = .ok (Spec.NoProxy.exempt host list) := by
   unfold isNoProxyHostL Spec.NoProxy.exempt
+  rw [proxy_shape.1]
   simp only [List.contains_eq_mem]
   by_cases h1 : ['*'] ∈ list
   · simp [h1]
@@ -197,7 +204,7 @@ theorem C19_decision (v6ok : Str → Bool) (host : Str) (secure : Bool) (optHost
       | .configError => .error .proxy := by
   unfold getProxyInfo Spec.NoProxy.decision
   have hnp : (proxyInfo optHost optPort optAuth optNoProxy).noProxy = optNoProxy := by
-    unfold proxyInfo; split <;> rfl
+    unfold proxyInfo; rw [proxy_shape.2.1]; split <;> rfl
   rw [hnp, C19_exempt_env]
   by_cases hex : Spec.NoProxy.exempt host (Spec.NoProxy.noProxyList optNoProxy env) = true
   · simp [hex]
